@@ -1235,8 +1235,8 @@ static void explore(const Ctx &c, std::vector<Op> &h)
     judged = vf::begin_case(txt);
     if (!judged)
     {
-      if (S.only_case == 0 && S.case_no == S.skip_through)
-        return; // the case that killed the previous worker: it has no successors
+      if (S.only_case == 0 && vf::is_dead_case())
+        return; // a case that killed an earlier worker: it has no successors
       if (S.only_case && S.case_no > S.only_case)
         return; // confirm mode: past the target
       // otherwise re-run silently, only to learn the successors
@@ -1244,6 +1244,8 @@ static void explore(const Ctx &c, std::vector<Op> &h)
   }
   RunOut out;
   g_mute = !judged;
+  if (!judged)
+    vf::note("(silent) " + txt);
   run_history(c, h, out, (int)h.size() < g_depth);
   if (judged && (g_oracles & O_UNDO))
     oracle_undo(c, h);
@@ -1642,7 +1644,10 @@ int main(int argc, char **argv)
   uint64_t t0 = vf::now_ms();
   if (!args.has("batch"))
     opt.batch = std::max<uint64_t>(1, units_per_spec() / 32);
-  vf::RunResult rr = vf::run_units(g_specs.size() * units_per_spec(), run_unit, opt);
+  opt.first_unit = (uint64_t)args.num("first_unit", 0);
+  opt.max_dead_cases = 100; // every abort re-runs the prefix of its unit: give up (exhaustive:false) when aborts pile up
+  uint64_t n_total_units = args.has("last_unit") ? (uint64_t)args.num("last_unit", 0) : g_specs.size() * units_per_spec();
+  vf::RunResult rr = vf::run_units(n_total_units, run_unit, opt);
   std::map<std::string, std::string> extra;
   extra["networks_total"] = std::to_string(g_specs.size());
   extra["networks_done"] = std::to_string(rr.units_done / units_per_spec());
